@@ -103,6 +103,82 @@ def execute(ex: Execution, n_runs: int, limit: int | None, second_instance: bool
         return obs, v
 
 
+def execute_successor(ex: Execution, old_limit: int, new_limit: int) -> tuple[Any, list[Any]]:
+    """Instances come and go on one runtime: instances with limit ``old_limit`` run and are garbage-collected, later
+    instances with another limit are created (some of them at the address of a collected one: the runtime keys its
+    bookkeeping by id()).  Every later instance must obey ITS limit."""
+    with EngineExec(ex, RunConfig()) as e:
+        rt = MonRuntime(BasicRuntime())
+        cls = wf_cls()
+
+        def mk(limit: int) -> Any:
+            wf = cls(timeout=None, runtime=rt, num_concurrent_runs=limit)
+            wf._active, wf._peak, wf._order = set(), 0, []
+            return wf
+
+        # phase 1: a batch of short-lived instances, one finished run each (default schedule: phase 1 is set-up, not explored)
+        old_ids = set()
+        for k in range(24):
+            wf = mk(old_limit)
+            old_ids.add(id(wf))
+            hd = wf.run(run_id=f"old-{k}", tag=f"o{k}")
+            e.loop.drain()
+            for g in e.h.pending_gates():
+                g.fut.set_result(None)
+            e.loop.drain()
+            assert hd.is_done()
+            del wf, hd
+        # the harness log must not keep the finished runs (and through them the instances) alive
+        import weakref
+
+        h = e.h
+        for lst in (h.invocations, h.runners, h.published, h.ticks, h.internal_sends, h.gates, h.trace):
+            lst.clear()
+        for lst in h.live.values():
+            lst.clear()
+        h.scheduled_due.clear()
+        h.pre_state = h.pre_runner = None
+        e.loop.drain()
+        gc.collect()
+        # phase 2: new instances until one lands on a recycled address (others are kept alive so the allocator moves on)
+        keep, wf2 = [], None
+        for _ in range(200):
+            cand = mk(new_limit)
+            if id(cand) in old_ids:
+                wf2 = cand
+                break
+            keep.append(cand)
+        recycled = wf2 is not None
+        if wf2 is None:
+            wf2 = keep[-1]
+        handlers = {}
+        tags = [f"n{i}" for i in range(3)]
+        for t in tags:
+            handlers[t] = wf2.run(run_id=f"new-{t}", tag=t)
+        v: list[Any] = []
+        w = {"limit": new_limit, "predecessor_limit": old_limit, "address_recycled": recycled}
+
+        def on_q(hh: Any) -> None:
+            if len(wf2._active) > new_limit:
+                v.append(("limit_exceeded", w, f"{len(wf2._active)} runs of one instance execute steps, limit {new_limit} "
+                                               f"(an earlier, collected instance at the same address had limit {old_limit})"))
+            if len(wf2._active) < min(new_limit, sum(1 for t in tags if not handlers[t].is_done())):
+                v.append(("run_never_executes", w, f"only {len(wf2._active)} runs execute although the limit is {new_limit} "
+                                                   f"and {sum(1 for t in tags if not handlers[t].is_done())} are unfinished"))
+
+        e.cfg.on_quiescent.append(on_q)
+        e.cfg.stop_when = lambda hh: all(handlers[t].is_done() for t in tags)
+        e.drive()
+        if wf2._peak > new_limit:
+            v.append(("limit_exceeded", w, f"peak {wf2._peak} concurrent runs, limit {new_limit}"))
+        for t in tags:
+            out = task_outcome(handlers[t]._result_task)
+            if out[0] != "result":
+                v.append(("run_never_executes", w, f"run {t} ended {out} (stuck={e.stuck})"))
+        obs = {"peak": wf2._peak, "recycled": recycled, "_metrics": {"max_concurrency": wf2._peak, "address_recycled": int(recycled)}}
+        return obs, v
+
+
 def programs(tier: str) -> list[Program]:
     q = tier == "quick"
     ps = []
@@ -120,13 +196,17 @@ def programs(tier: str) -> list[Program]:
                           max_dev=(4 if q else None)))
         ps.append(Program(f"hard_cancel(n=3,limit={limit})", {}, (lambda ex, limit=limit: execute(ex, 3, limit, False, True, False)),
                           max_dev=(4 if q else None)))
+    for old_limit, new_limit in ((3, 1), (1, 2)):
+        ps.append(Program(f"successor_instance(old_limit={old_limit},limit={new_limit})", {"old": old_limit, "limit": new_limit},
+                          (lambda ex, o=old_limit, nl=new_limit: execute_successor(ex, o, nl))))
     if not q:
         ps.append(Program("hard_cancel_staggered(n=4,limit=2)", {}, lambda ex: execute(ex, 4, 2, False, True, True), max_dev=5))
     return ps
 
 
 RULE = ("2-4 runs of one workflow instance with num_concurrent_runs 1..3 (and unlimited), started together or "
-        "staggered, a second instance, hard cancel of a queued run x all start/finish interleavings; the number of "
+        "staggered, a second instance, hard cancel of a queued run, a successor instance created after earlier instances with another "
+        "limit were garbage-collected (address reuse is reported in the evidence) x all start/finish interleavings; the number of "
         "runs executing steps is checked in every quiescent state, every non-cancelled run must execute, a second "
         "instance must never wait; non-trivial = at least one schedule deviation")
 
